@@ -81,8 +81,7 @@ def _run_cases():
 def model_and_replay(d, tier):
     """Returns [(name, TlcResult)]; raises on machinery failure; executor violations are reported through
     a dedicated Verdict inside (they belong to C06)."""
-    for f in ('Executor.tla', 'ExecutorTrace.tla'):
-        shutil.copy(os.path.join(common.SPEC, 'executor', f), d)
+    common.put_spec(d, *[os.path.join('executor', f_) for f_ in ('Executor.tla', 'ExecutorTrace.tla')])
     consts = 'CONSTANTS\n Outcomes = {"data", "error_result", "raises"}\n SendFaults = {"ok", "mistral_exc", "other_exc"}\n'
     with open(os.path.join(d, 'Executor.cfg'), 'w') as fh:
         fh.write('SPECIFICATION Spec\n' + consts + 'INVARIANT RunIffAllowed\nINVARIANT AtMostOneResult\nINVARIANT RefusedOneError\n'
